@@ -163,3 +163,5 @@ func seqOnce(body func()) *vsched.Sched {
 }
 
 var _ = kit.Describe
+
+func jsonUnmarshal(b []byte, v any) error { return json.Unmarshal(b, v) }
